@@ -11,7 +11,9 @@ import (
 // that duplicate and equal-but-differently-spelled siblings are frequent, and a
 // bias towards several same-kind siblings.
 
-var EqPlainTags = []string{"_A", "_B", "NOTE", "PLAC", "NAME", "TYPE", "OCCU"}
+// (SEX is the one kind whose constructor takes no children: below it, children only survive
+// when they are attached with AddNode or decoded, which is how every user of EqTree builds)
+var EqPlainTags = []string{"_A", "_B", "NOTE", "PLAC", "NAME", "TYPE", "OCCU", "SEX", "SOUR", "MAP"}
 var EqEventTags = []string{"BIRT", "DEAT", "BURI", "BAPM", "RESI", "EVEN"}
 var EqPlainValues = []string{"", "x", "y", "Sydney", "John /Smith/", "Sydney, Australia"}
 var EqDateValues = []string{"3 Sep 1943", "03 sep 1943", "Sep 1943", "1943", "Abt. 1943", "Bef. Oct 1943", "Bef. 1950", "Aft. 1900", "Aft. 1920",
@@ -100,7 +102,7 @@ func EqTree(o EqTreeOpts) *rapid.Generator[*NodeBP] {
 			case 1:
 				pi = rapid.IntRange(0, len(all)-1).Draw(t, "parent")
 			}
-			if depth[pi] >= o.MaxDepth || all[pi].Tag == "SEX" {
+			if depth[pi] >= o.MaxDepth {
 				pi = 0
 			}
 			p := all[pi]
